@@ -220,6 +220,10 @@ class Tr:
         src = payload_of(t)
         if src is not None:
             key = ("payload-of", src)
+            if is_call(src, "try_from", "try_into") and src[1].startswith(("std::convert::", "core::convert::")) and len(src[2]) == 1:
+                # the Ok payload of an integer conversion is the value converted
+                self.trusted_used.add("TryFrom between integer types returns Ok(v) with the same value, or Err")
+                return self.lin(src[2][0])
             if is_call(src, "request::find") and len(src[2]) == 2:
                 p = self.atom(key, 0, None)
                 self.st.add_le(p + self.length(src[2][1]) - self.length(src[2][0]))
